@@ -4823,6 +4823,12 @@ func swappedArgumentsRule(c *Ctx, r *Result, rule string, floor int) {
 							n++
 							counted = true
 						}
+						oneSided := (names[j] == pi.Name() && names[i] != pi.Name() && names[i] != pj.Name()) || (names[i] == pj.Name() && names[j] != pj.Name() && names[j] != pi.Name())
+						if oneSided {
+							bad++
+							r.Viol(rule, fmt.Sprintf("%s#%s-and-%s-misplaced-%d", fobj.Name(), pi.Name(), pj.Name(), bad), c.Pos(call.Pos()), fmt.Sprintf("an argument that carries the name of one parameter of %s is handed to another parameter of the same type (%s / %s given as %s / %s)", fobj.Name(), pi.Name(), pj.Name(), names[i], names[j]))
+							continue
+						}
 						if names[i] == pj.Name() && names[j] == pi.Name() {
 							bad++
 							r.Viol(rule, fmt.Sprintf("%s#%s-and-%s-exchanged-%d", fobj.Name(), pi.Name(), pj.Name(), bad), c.Pos(call.Pos()), fmt.Sprintf("the argument named %s is handed to the parameter %s and the argument named %s to the parameter %s of %s (same type: the compiler cannot tell)", names[i], pi.Name(), names[j], pj.Name(), fobj.Name()))
@@ -5213,4 +5219,59 @@ func fillLoopCoversRule(c *Ctx, r *Result, rule string, floor int) {
 func init() {
 	txt := "a result of n elements has all n filled: a loop that stores result[i] into a slice made with n elements runs while i < n (with i+1 < n the last element of every float64 partial read stays 0)"
 	shareRule([]string{"C09", "C01", "C06"}, txt, "C09", func(c *Ctx, r *Result, id string) { fillLoopCoversRule(c, r, id, 10) })
+}
+
+// siblingReadersRule (C06): the three whole-dataset readers collect the same header messages and size the result the same way.
+func siblingReadersRule(c *Ctx, r *Result, rule string) {
+	names := []string{"core.ReadDatasetFloat64", "core.ReadDatasetStrings", "core.ReadDatasetCompound"}
+	kinds := map[string]map[int64]bool{}
+	total := map[string]bool{}
+	var present []string
+	for _, nme := range names {
+		fn := c.FnOpt(nme)
+		if fn == nil {
+			continue
+		}
+		present = append(present, nme)
+		kinds[nme] = map[int64]bool{}
+		instrs(fn, func(in ssa.Instruction) {
+			if cmp, ok := in.(*ssa.BinOp); ok && cmp.Op == token.EQL && valueReadsField(cmp.X, "core.HeaderMessage.Type", 0) {
+				if k, isK := constInt(cmp.Y); isK {
+					kinds[nme][k] = true
+				}
+			}
+		})
+		for _, site := range callsIn(fn) {
+			if c.calleeName(site) == "core.DataspaceMessage.TotalElements" {
+				total[nme] = true
+			}
+		}
+	}
+	if len(present) < 2 {
+		r.Undec(rule, "core#whole-dataset-readers-agree", "", "fewer than two of the sibling readers found")
+		return
+	}
+	all := map[int64]bool{}
+	for _, nme := range present {
+		for k := range kinds[nme] {
+			all[k] = true
+		}
+	}
+	for _, nme := range present {
+		fn := c.FnOpt(nme)
+		var missing []string
+		for k := range all {
+			if !kinds[nme][k] {
+				missing = append(missing, fmt.Sprint(k))
+			}
+		}
+		sort.Strings(missing)
+		r.Check(len(missing) == 0, rule, nme+"#collects-the-messages-its-siblings-collect", c.Pos(fn.Pos()), "message types "+strings.Join(missing, ", ")+" are picked up by a sibling reader and not here (a dataset whose filter pipeline message is not picked up is returned as its still-filtered chunk bytes)")
+		r.Check(total[nme], rule, nme+"#element-count-from-TotalElements", c.Pos(fn.Pos()), "the number of elements is the dataspace's TotalElements() as in the sibling readers (Dimensions[0] returns the first dimension's count of a 3x2 string dataset)")
+	}
+}
+
+func init() {
+	txt := "the whole-dataset readers agree: ReadDatasetFloat64, ReadDatasetStrings and ReadDatasetCompound compare the header message type with the same set of constants (datatype, dataspace, layout, filter pipeline) and each sizes its result with DataspaceMessage.TotalElements()"
+	shareRule([]string{"C06", "C01", "C08"}, txt, "C06", func(c *Ctx, r *Result, id string) { siblingReadersRule(c, r, id) })
 }
